@@ -1,8 +1,11 @@
-"""Entry point: python -m harness.run <ID> [--tier ...] [--replay PATH]"""
+"""Entry point: python -m harness.run <ID> [--tier ...] [--replay PATH]
+
+Exit 0: the property held on everything explored; 1: a VIOLATION line was printed;
+2: the machinery itself failed (never to be read as a verdict) - that includes a harness
+module that cannot be imported."""
 import importlib
 import sys
-
-from harness import core
+import traceback
 
 
 def main():
@@ -11,9 +14,11 @@ def main():
         return 2
     pid = sys.argv[1].upper()
     try:
+        from harness import core
         mod = importlib.import_module('harness.checks.%s' % pid.lower())
-    except ImportError as e:
-        sys.stderr.write('no check for %s: %s\n' % (pid, e))
+    except BaseException:       # noqa  (SyntaxError, ImportError, NameError at import time, ...)
+        traceback.print_exc()
+        print('MACHINERY FAILURE in %s (harness could not be loaded)' % pid)
         return 2
     return core.main(pid, mod.run, sys.argv[2:])
 
